@@ -152,7 +152,34 @@ def stride_canon(repo: Repo, chk: Check, rule: str = "C19.stride-canon") -> None
     if not merges:
         raise AnalysisError(f"{f.where}: fold `bounds[-1] *= ub` not found")
     for s in merges:
-        lst = ast.unparse(s.node.target.value)  # type: ignore[attr-defined]
+        tgt = s.node.target  # type: ignore[attr-defined]
+        lst = ast.unparse(tgt.value)
+        pair_form = isinstance(tgt.value, ast.Subscript) and ast.unparse(tgt.value.slice) == "-1" and isinstance(tgt.slice, ast.Constant)
+        if pair_form:
+            # the kept loops are one list of [bound, stride] pairs: `pairs[-1][i] *= ub` under `pairs[-1][i] * pairs[-1][j] == ts`
+            pl = ast.unparse(tgt.value.value)  # type: ignore[union-attr]
+            i_ = tgt.slice.value  # type: ignore[union-attr]
+            okv = is_var(s.node.value, s, ub_t, ts_t)
+            cond = None
+            for fact in s.facts:
+                if fact.kind == "atom":
+                    m = norm.any_match([f"{pl}[-1][{i_}] * {pl}[-1][$j] == $t", f"{pl}[-1][$j] * {pl}[-1][{i_}] == $t", f"$t == {pl}[-1][{i_}] * {pl}[-1][$j]"], fact.expr)
+                    if m is not None and is_var(m["t"], s, ts_t, ub_t) and isinstance(m["j"], ast.Constant) and m["j"].value != i_:
+                        cond = (fact, pl, m["j"].value)
+            chk.result(okv and cond is not None, rule, f"{f.key}:fold-condition", s.where(),
+                       "a dimension is folded into the last kept one only if it continues it exactly (kept bound * kept stride == stride)",
+                       "a dimension is folded into the previous one on a path where `last kept bound * last kept stride == stride` is not established "
+                       "(e.g. the extent of a dropped unit dimension is compared instead): the folded pattern addresses other elements", s.fact_texts)
+            if cond is not None:
+                j_ = cond[2]
+                apps = []
+                for x in fl.calls("append"):
+                    if x.reachable and ast.unparse(x.node.func.value) == pl and x.node.args:  # type: ignore[attr-defined]
+                        el = norm.primary(x.node.args[0])
+                        if isinstance(el, (ast.List, ast.Tuple)) and len(el.elts) > max(i_, j_) and is_var(el.elts[j_], x, ts_t, ub_t) and is_var(el.elts[i_], x, ub_t, ts_t):
+                            apps.append(x)
+                chk.result(bool(apps), rule, f"{f.key}:kept-lists", s.where(), "the comparison uses the kept [bound, stride] pairs")
+            continue
         okv = ast.unparse(s.node.target.slice) == "-1" and is_var(s.node.value, s, ub_t, ts_t)  # type: ignore[attr-defined]
         cond = None
         for fact in s.facts:
@@ -593,8 +620,27 @@ def rewrite_identities(repo: Repo, chk: Check) -> None:
         if n_ret == 0:
             raise AnalysisError(f"{f.where}: no returns")
     b = repo.func(CANON, "canonicalize_binary_op")
-    src = ast.unparse(b.node)
-    okd = all(f"if expr.kind is AffineBinaryOpKind.{k}:\n        return {q}(expr)" in src for q, k in kinds.items())
+    bfl = Flow(b, repo)
+    found: dict[str, str] = {}  # canonicaliser -> kind it is called for
+    for s_ in [x for x in bfl.stmts(ast.Return) if x.reachable and isinstance(x.node.value, ast.Call) and callee_name(x.node.value) in kinds]:
+        q_ = callee_name(s_.node.value)
+        for fa in s_.facts:
+            if fa.kind == "atom":
+                m_ = norm.any_match(["$e.kind is AffineBinaryOpKind.Add", "$e.kind == AffineBinaryOpKind.Add"], fa.expr)
+                for k_ in ("Add", "Mul", "FloorDiv", "Mod", "CeilDiv"):
+                    if norm.any_match([f"$e.kind is AffineBinaryOpKind.{k_}", f"$e.kind == AffineBinaryOpKind.{k_}"], fa.expr) is not None:
+                        found[q_] = k_ if q_ not in found or found[q_] == k_ else "?"
+    # the same dispatch as a table {kind: canonicaliser} consulted with the expression's kind
+    for name, d in b.module.consts.items():
+        if isinstance(d, ast.Dict) and d.keys and all(k is not None and ast.unparse(k).startswith("AffineBinaryOpKind.") for k in d.keys) and any(
+                isinstance(n, ast.Name) and n.id == name for n in ast.walk(b.node)):
+            used_by_kind = any(norm.any_match([f"{name}.get($e.kind)", f"{name}.get($e.kind, $_)", f"{name}[$e.kind]"], n) is not None for n in ast.walk(b.node))
+            if used_by_kind:
+                for k, v in zip(d.keys, d.values):
+                    if isinstance(v, ast.Name) and v.id in kinds:
+                        kk = ast.unparse(k).split(".")[-1]
+                        found[v.id] = kk if v.id not in found or found[v.id] == kk else "?"
+    okd = all(found.get(q) == k for q, k in kinds.items())
     chk.result(okd, "C19.rewrite-identities", f"{b.key}:dispatch", b.where, "each kind is dispatched to its own canonicaliser",
                "canonicalize_binary_op dispatches a kind to the canonicaliser of another kind")
 
